@@ -25,6 +25,10 @@ except Exception:  # pragma: no cover
 
 _PRIMS = (int, str, bytes, float, bool, type(None))
 
+# Optional observer of calls that cross the native boundary:
+# CALL_HOOK(real_object, method_name, args, kwargs, result)
+CALL_HOOK: typing.Any = None
+
 
 def real(x: typing.Any) -> typing.Any:
     """Shallow-recursive realisation of plain data (no object copies)."""
@@ -85,7 +89,10 @@ class NativeObj:
             return NativeObj(v, wt)
         if isinstance(v, types.MethodType) or isinstance(v, types.BuiltinMethodType):
             def method(*a: typing.Any, **kw: typing.Any) -> typing.Any:
-                return self._wrap(call_native(v, *a, **kw))
+                res = call_native(v, *a, **kw)
+                if CALL_HOOK is not None:
+                    CALL_HOOK(object.__getattribute__(self, "_real"), v.__name__, a, kw, res)
+                return self._wrap(res)
 
             return method
         return v
